@@ -1043,7 +1043,7 @@ pub fn run_c07(tier: Tier) -> i32 {
             if spec.needs_stop && r > 0 {
                 return; // no clock involved
             }
-            let stops: Vec<u64> = if spec.needs_stop { vec![1, 2, 7, 40, 300] } else { vec![0] };
+            let stops: Vec<u64> = if spec.needs_stop { vec![START_GATE, 1, 2, 7, 40, 300] } else { vec![0] }; // START_GATE: the stop is waiting when the search starts
             for stop_at in stops {
                 stats.gos.fetch_add(1, Ordering::Relaxed);
                 let mut s = Session::new(false);
